@@ -193,7 +193,7 @@ fn main() {
     // LONG thick polylines (32 .. 70 vertices; a renderer may treat long polylines differently, e.g. cull segments):
     // random walks inside a box with sharp spikes (mitered corners of 25 .. 60 degrees) pointing in all four directions
     // at varying depth inside the vertex bounding box
-    for k in 0..(if th { 1500 } else { 320 }) {
+    for k in 0..(if th { 1500 } else { 120 }) {
         let n = 32 + rng.usize(0, 38);
         let mut v: Vec<Value> = vec![];
         let (mut x, mut y) = (rng.i32(-40, 40), rng.i32(-40, 40));
